@@ -7,12 +7,14 @@
 #![allow(clippy::all)]
 
 pub mod codec;
+pub mod corpus;
 pub mod ctx;
 pub mod gen;
 pub mod monitor;
 pub mod props;
 pub mod reference;
 pub mod rng;
+pub mod walk;
 
 use ctx::{Ctx, Tier};
 use monitor::panic::{guard, PanicKind};
